@@ -316,6 +316,46 @@ def offerDirectory (fs : FS) (a : Args) (mode dirnm : Path) (dropped extracted :
     if dropped = true then (fs1, .error .transferError)
     else (if extracted = true then fs1.set d .dir else fs1, .ok d)
 
+/-! ## more than one receive with the same `args` object
+
+`cmd_receive.receive(args)` builds a NEW `Receiver(args)` every time and runs `go()`; nothing of an earlier Receiver is
+visible to a later one.  What a later receive does share with an earlier one is the `args` (Config) object — a library
+embedding, a GUI or a retry loop calls `receive(cfg)` again with the very same object — and the file system.  The
+model therefore hands the `args` record back from every receive, as the receive leaves it.  Today no method of the
+receive path assigns to it (`WV.Gen.Recv.outlives_receive = []`, a proof obligation in `WV.Props.C05`), so it comes
+back as it went in; an assignment `self.args.x = v` in the source corresponds to `{ a with x := v }` here. -/
+
+/-- what the sender offers, and what the environment does to the transfer (`dropped`: the connection is lost before
+    all bytes arrived; `extracted`: zipfile got as far as creating the destination directory) -/
+inductive Offer
+  | file (name : Path) (dropped : Bool)
+  | dir (mode name : Path) (dropped extracted : Bool)
+
+/-- the name the sender put into the offer -/
+def Offer.name : Offer → Path
+  | .file n _ => n
+  | .dir _ n _ _ => n
+
+/-- one run: the offer, and what the user types at THIS run's `ok? (Y/n):` prompt (environment, not an option) -/
+structure Step where
+  answer : Path
+  offer : Offer
+
+/-- `cmd_receive.receive(args)` once: `(args as the receive leaves them, file system, result)` -/
+def receive (a : Args) (fs : FS) (s : Step) : Args × FS × Except Err Path :=
+  match s.offer with
+  | .file n dr => (a, offerFile fs { a with answer := s.answer } n dr)
+  | .dir m n dr ex => (a, offerDirectory fs { a with answer := s.answer } m n dr ex)
+
+/-- one more receive after some: the `args` and the file system are the ones the previous receive left behind -/
+def recvStep (st : Args × FS × List (Except Err Path)) (s : Step) : Args × FS × List (Except Err Path) :=
+  ((receive st.1 st.2.1 s).1, (receive st.1 st.2.1 s).2.1, st.2.2 ++ [(receive st.1 st.2.1 s).2.2])
+
+/-- a process that calls `receive(args)` once per step with the SAME `args` object: final args, final file system,
+    the results in order -/
+def receives (a : Args) (fs : FS) (steps : List Step) : Args × FS × List (Except Err Path) :=
+  steps.foldl recvStep (a, fs, [])
+
 /-- the guard of `Receiver._extract_file`: `Ok out_path` or `ValueError` -/
 def extractGuard (proc : Path) (extractDir : Path) (filename : Path) : Except Err Path :=
   let out := abspath proc (join2 extractDir filename)
@@ -412,7 +452,11 @@ offer_file <name> <dropped 0/1>  -> ok <dest> | <kinds>      (Receiver.go() on a
 offer_dir <mode> <name> <dropped 0/1> <extracted 0/1>  -> ok <dest> | <kinds>
 guard <dest> <member>            -> ok <out_path> | ValueError
 extract <dest> <member>          -> ok <target> <out_path> | ValueError
+recv_file <answer> <name> <dropped 0/1>                         -> ok <dest> | <kinds> | <cwd> <output_file> <accept 0/1>
+recv_dir <answer> <mode> <name> <dropped 0/1> <extracted 0/1>   -> ok <dest> | <kinds> | <cwd> <output_file> <accept 0/1>
 ```
+`recv_*`: one `cmd_receive.receive(args)` of a sequence — the args set by `args`/`entry_args` are THREADED through (the
+next `recv_*` runs with what this one left), and printed after the step.
 `<kinds>`: kind (`f d o -`) of every registered path, in registration order, after the step.
 -/
 
@@ -450,6 +494,16 @@ def showKinds (s : DrvSt) : String := " ".intercalate (s.reg.map (fun p => kindC
 
 def hx (p : Path) : String := hexOfStr (String.ofList p)
 def unhx (t : String) : Option Path := (strOfHex? t).map String.toList
+
+def showArgs (a : Args) : String := s!"{hx a.cwd} {hx a.outputFile} {if a.acceptFile then 1 else 0}"
+
+/-- a `recv_*` line: run `receive`, keep the args and the file system it leaves -/
+def drvReceive (s : DrvSt) (st : Step) : DrvSt × String :=
+  match receive s.args s.fs st with
+  | (a', fs', .ok d) =>
+    let s' := { s with fs := fs', args := a', last := none }; (s', s!"ok {hx d} | {showKinds s'} | {showArgs a'}")
+  | (a', fs', .error e) =>
+    let s' := { s with fs := fs', args := a', last := none }; (s', s!"{e.name} | {showKinds s'} | {showArgs a'}")
 
 def step (s : DrvSt) (line : String) : DrvSt × String :=
   match tokens line with
@@ -521,6 +575,14 @@ def step (s : DrvSt) (line : String) : DrvSt × String :=
       | (fs', .ok _) => let s' := { s with fs := fs', last := none }; (s', s!"ok | {showKinds s'}")
       | (fs', .error e) => let s' := { s with fs := fs', last := none }; (s', s!"{e.name} | {showKinds s'}")
     | none => (s, "bad-op")
+  | ["recv_file", ans, n, dr] =>
+    match unhx ans, unhx n with
+    | some ans, some n => drvReceive s { answer := ans, offer := .file n (dr == "1") }
+    | _, _ => (s, "bad-op")
+  | ["recv_dir", ans, m, n, dr, ex] =>
+    match unhx ans, unhx m, unhx n with
+    | some ans, some m, some n => drvReceive s { answer := ans, offer := .dir m n (dr == "1") (ex == "1") }
+    | _, _, _ => (s, "bad-op")
   | ["guard", d, m] =>
     match unhx d, unhx m with
     | some d, some m =>
